@@ -167,7 +167,7 @@ Section Print.
           | Some (OUnion _ var fs) =>
               match plist true fs true with
               | POk s => POk ([118;97;114;105;97;110;116;40]%N ++ dec_of_N var ++ s ++ [41%N]) | e => e end
-          | Some (OClos _ _) => PUnmod          (* "fn(%u)" prints the low half of the closure pointer *)
+          | Some (OClos _ _) => POk [102;110;40;0;41]%N   (* "fn(%u)" of the low half of the closure pointer: the digits are not modelled (NUL placeholder) *)
           end
       end
     end.
